@@ -663,10 +663,18 @@ def _mi(v):
 
 # ----------------------------------------------------------------------------- recording
 
-def annotate(structure, ann_model):
+def annotate(structure, ann_model, twice=False):
     from rnapolis.annotator import extract_base_interactions
     quiet()
     try:
+        if twice:
+            # environment action: the caller has annotated this very object before and emptied the lists it got
+            # (they were its to consume) - an annotation must not depend on what became of an earlier answer
+            first = extract_base_interactions(structure, ann_model)
+            for name in ("basePairs", "stackings", "basePhosphateInteractions", "baseRiboseInteractions", "otherInteractions"):
+                lst = getattr(first, name, None)
+                if isinstance(lst, list):
+                    lst.clear()
         return extract_base_interactions(structure, ann_model), ""
     except Exception as e:  # the error path is data; the spec decides
         return None, type(e).__name__
@@ -677,7 +685,8 @@ def record(recipe, family):
     K = measurer.constants()
     structure, ann_model = build(recipe)
     seen, split = code_view(recipe, structure)
-    bi, err = annotate(seen, ann_model)
+    import zlib
+    bi, err = annotate(seen, ann_model, twice=zlib.crc32(str(recipe["id"]).encode()) % 3 == 0)
     M = measurer.measure(structure, K, ann_model)
     P = Projection(structure, ann_model)
     P.mark(M)
